@@ -97,6 +97,15 @@ CHECKS = {
             'the sockets that now own the old number.',
             'Truth from /proc (state, ppid, start time). wait() only generated once the child has been told to die.',
             'DESIGN.md 3/C10'),
+    'C12': ('E5 scripted dialogue child (peers/rawpeer.py) under run()',
+            'Hypothesis-generated child dialogues x event tables (dict/list, string/function/method responses, EOF/TIMEOUT '
+            'keys) on real children; conservation oracle on the returned output, exit status, the child\'s own record of '
+            'received lines, and a callback invocation log',
+            'The returned output must be exactly what the child printed up to the stop point, each piece once, whatever '
+            'events fired (incl. a TIMEOUT event mid-stream and payloads far larger than maxread); responses are compared '
+            'with what the child actually received, callbacks with the occurrences in stream order.',
+            'Prompt tokens are prefix-free and absent from payloads; wall-clock timeouts with wide margins; EOF callbacks always stop.',
+            'DESIGN.md 3/C12'),
     'C11': ('E3 recording peers + recording log objects',
             'the C08 history runner with recording log files in all 8 combinations; transcript oracle (read log, send '
             'log, merged log in operation order, flush after every write, string type per mode); interact() sessions '
@@ -195,7 +204,7 @@ def main():
                                'interposed from the harness by replacing module attributes; virtual clock; peer actions '
                                'fired between reader syscalls; detection of waits that can never end'},
             {'name': 'E3', 'path': 'vf/engines/peers.py, vf/engines/dialogue.py, peers/rawpeer.py, peers/probe.py',
-             'serves_properties': ['C04', 'C05', 'C06', 'C07', 'C08', 'C09', 'C10', 'C11', 'C13'],
+             'serves_properties': ['C04', 'C05', 'C06', 'C07', 'C08', 'C09', 'C10', 'C11', 'C12', 'C13'],
              'kind_free_text': 'real peers: scripted pty/Popen children recording what they receive, pre-filled '
                                'pipes/socketpairs, recording log files'},
             {'name': 'E4', 'path': 'vf/engines/screenmodel.py', 'serves_properties': ['C19'],
